@@ -336,14 +336,14 @@ Qed.
 Lemma report_complete_inv : forall st sid x s',
   Inv st -> find_ctx sid (ctxs st) = Some x ->
   kept_P (log st) (tab st) s' -> s_seen s' <= nchg st -> s_seen_ev s' <= s_dev s' ->
-  forall keep, Inv (report_complete st sid s' keep).
+  forall slot keep, Inv (report_complete slot st sid s' keep).
 Proof.
-  intros st sid x s' I Hf HK Hs He keep.
+  intros st sid x s' I Hf HK Hs He slot keep.
   pose proof (remove_ctx_length sid (ctxs st) x Hf) as Hlen.
   pose proof (i_cnt st I) as Hc.
-  assert (Hdrop : Inv (mkSt (next_sid st) (count st - 1) (subs st) (tab st) (next_chg st) None false
+  assert (Hdrop : forall rep canc, Inv (mkSt (next_sid st) (count st - 1) (subs st) (tab st) (next_chg st) rep canc
                             (remove_ctx sid (ctxs st)) (kv st) (log st) (nchg st) (evn st))).
-  { constructor; cbn [next_chg nchg tab log subs ctxs count].
+  { intros rep canc. constructor; cbn [next_chg nchg tab log subs ctxs count].
     - apply (i_next st I).
     - apply (i_tab st I).
     - apply (i_log st I).
@@ -354,7 +354,7 @@ Proof.
     - intros y Hy. apply (i_ctx st I). eapply remove_ctx_In. exact Hy.
     - apply (i_ev st I).
     - intros y Hy. apply (i_xev st I). eapply remove_ctx_In. exact Hy. }
-  unfold report_complete. destruct (cancelled st); [exact Hdrop|]. destruct keep; [|exact Hdrop].
+  unfold report_complete. destruct (owns_slot slot st sid && cancelled st); [apply Hdrop|]. destruct keep; [|apply Hdrop].
   constructor; cbn [next_chg nchg tab log subs ctxs count].
   - apply (i_next st I).
   - apply (i_tab st I).
@@ -497,10 +497,10 @@ Proof.
     pose proof (find_ctx_In _ _ _ Hf) as Hx.
     pose proof (i_xseen st I x Hx) as [Hxs1 Hxs2].
     pose proof (i_xev st I x Hx) as Hxe.
-    assert (Hn : forall s' keep, nchg (report_complete st sid s' keep) = nchg st).
-    { intros. unfold report_complete. destruct (cancelled st); [reflexivity|]. destruct keep; reflexivity. }
-    assert (Hd : forall s1 s2, report_complete st sid s1 false = report_complete st sid s2 false).
-    { intros. unfold report_complete. destruct (cancelled st); reflexivity. }
+    assert (Hn : forall s' keep, nchg (report_complete true st sid s' keep) = nchg st).
+    { intros. unfold report_complete. destruct (owns_slot true st sid && cancelled st); [reflexivity|]. destruct keep; reflexivity. }
+    assert (Hd : forall s1 s2, report_complete true st sid s1 false = report_complete true st sid s2 false).
+    { intros. unfold report_complete. destruct (owns_slot true st sid && cancelled st); reflexivity. }
     destruct r; cbn [fst]; rewrite Hn; (split; [|lia]).
     + (* delivered *)
       destruct (visit_rest_facts (log st) (tab st) (nchg st) x (i_ctx st I x Hx) (i_log st I))
@@ -610,13 +610,13 @@ Definition f7_witness : list op :=
   [OSubBegin 1 100 1 60 [f7_path] 0 0; OCtxRead 1 f7_path; OChange 1 2 3;
    OReportBegin 0 0; OPurge; OCtxEnd 1 EOk].
 
-Lemma unfixed_purge_refuted : inv_b (run_gen false init f7_witness) = false.
+Lemma unfixed_purge_refuted : inv_b (run_gen false true init f7_witness) = false.
 Proof. vm_compute. reflexivity. Qed.
 
 (** ... and that subscription is not reportable although its subscriber is out of date (until the
     liveness report, which will not carry the attribute either) *)
 Lemma unfixed_purge_refuted_not_reportable :
-  let st := run_gen false init f7_witness in
+  let st := run_gen false true init f7_witness in
   existsb (fun s => stale (log st) (s_del s) f7_path &&
                     negb (unprimed s) &&
                     negb (is_reportable s 20000 (tab st) (evn st)) &&
